@@ -140,6 +140,9 @@ package ice
 //@   site call Contains#2 ghost carries := result
 //@   site call GetFromWithType#1 ghost decoded := result == nil
 //@   site call shouldAcceptNomination#1 assert C20 a-nomination-value-counts-only-if-the-attribute-is-there-and-decodes: hasValidNomination == (carries && decoded)
+//@   ghostvar decodeTried bool = false
+//@   site call GetFromWithType#1 ghost decodeTried := true
+//@   site call sendBindingSuccess#0 assert C20 a-nomination-attribute-that-is-present-is-decoded-not-skipped: carries ==> decodeTried
 //@   site call shouldSwitchSelectedPair#1 assert C03 switch-decision-on-valid-pair: pair.state == pairSucceeded && s.agent.gNomAccepted && arg1 == pair && arg3 == nominationValue
 //@   site call setSelectedPair#1 assert C03 selects-only-nominated-valid: (hasUseCandidate || hasValidNomination) && s.agent.gNomAccepted && pair.state == pairSucceeded && arg1 == pair
 //@   site store nominateOnBindingSuccess#1 assert C03 C20 deferred-only-when-nominated: (hasUseCandidate || hasValidNomination) && s.agent.gNomAccepted && object == pair && value == true && pair.state != pairSucceeded
@@ -256,3 +259,10 @@ package ice
 //@   site call Contains#2 assert C05 asks-the-message-for-the-controlling-attribute: arg0 == msg && arg1 == stun.AttrICEControlling
 //@   site call Contains#2 ghost ctl := result
 //@   site call append#1 assert C05 records-the-role-the-check-is-sent-in: arg1[0].isControlling == ctl
+//@   ghostvar nomDecoded bool = false
+//@   ghostvar useCand bool = false
+//@   site call GetFromWithType#1 assert C20 reads-the-nomination-attribute-of-this-message: arg1 == msg && arg2 == a.nominationAttribute
+//@   site call GetFromWithType#1 ghost nomDecoded := result == nil
+//@   site call Contains#1 assert C03 asks-the-message-for-use-candidate: arg0 == msg && arg1 == stun.AttrUseCandidate
+//@   site call Contains#1 ghost useCand := result
+//@   site call append#1 assert C20 C03 the-pending-transaction-remembers-what-kind-of-nomination-it-carries: arg1[0].isUseCandidate == useCand && (arg1[0].nominationValue != nil) == nomDecoded
